@@ -12,7 +12,7 @@ PID = 'C02'
 META = dict(
     explanation="ANM.__init__ / ANM.sample (functions.null, utils.topological_ordering) are executed on every DAG pattern with symbolic "
                 "real weights. Assignment callables are UNINTERPRETED functions f_i(x_1..x_k) applied row-wise to the array they "
-                "receive (hence arbitrary: non-linear, non-symmetric), in three flavours (returning an (n,) vector, an (n,1) column, "
+                "receive (hence arbitrary: non-linear, non-symmetric), in four flavours (returning an (n,) vector, an (n,1) column, a VIEW of their own input (the first parent's column), "
                 "or - for parentless variables - None / functions.null / a scalar); noise, do-, shift- and noise-intervention "
                 "callables return fresh symbolic draws and record that they were called with n. Intervention membership of every "
                 "variable is symbolic (none / do / shift / noise / do+shift / do+noise). z3 (QF_UF + linear real arithmetic) decides "
@@ -98,8 +98,13 @@ def _run(ctx, rows, pat, p, n, flavour, kinds, Aarr=None):
         if not parents[i]:
             assignments.append([None, fn.null, None][i % 3] if flavour != 'scalar' else (lambda X: 0))
         else:
-            ufs[i] = UF(i, flavour if flavour in ('vector', 'column') else 'vector', calls)
-            assignments.append(ufs[i])
+            if flavour == 'firstcol':
+                # a concrete assignment that returns (a view of) its own input: the first parent's column
+                ufs[i] = None
+                assignments.append(lambda X: X[:, 0])
+            else:
+                ufs[i] = UF(i, flavour if flavour in ('vector', 'column') else 'vector', calls)
+                assignments.append(ufs[i])
     noises = [Draw(e, 'N%d' % i, calls) for i in range(p)]
     do, shift, noise = {}, {}, {}
     for i in range(p):
@@ -125,7 +130,9 @@ def _run(ctx, rows, pat, p, n, flavour, kinds, Aarr=None):
                         cl.append(('do-target X%d equals the intervention draw alone (row %d)' % (i, r),
                                    len(do[i].last) == n and X[r, i] == do[i].last[r]))
                         continue
-                    if parents[i]:
+                    if parents[i] and flavour == 'firstcol':
+                        base = X[r, parents[i][0]]
+                    elif parents[i]:
                         base = ufs[i].term([X[r, c] for c in parents[i]])
                     else:
                         base = 0
@@ -194,7 +201,7 @@ def obligations(tier):
     for p in (1, 2, 3):
         cubes = []
         for n in (0, 1, 2):
-            for fl in ('vector', 'column', 'scalar'):
+            for fl in ('vector', 'column', 'scalar', 'firstcol'):
                 for c in I.dag_pair_cubes(p, 2 if p == 3 else 0):
                     cubes.append(dict(c, n=n, flavour=fl))
         ob.append(Obligation('anm_p%d' % p, h_anm, cubes, "ANM.sample on every DAG pattern on %d nodes, every intervention assignment, n in {0,1,2}, 3 callable flavours" % p,
@@ -241,6 +248,8 @@ def replay(rec):
     for i in range(p):
         if not parents[i]:
             assignments.append([None, s.functions.null, None][i % 3] if flavour != 'scalar' else (lambda X: 0))
+        elif flavour == 'firstcol':
+            assignments.append(lambda X: X[:, 0])
         elif flavour == 'column':
             assignments.append((lambda i: (lambda X: fassign(i, X).reshape(-1, 1)))(i))
         else:
@@ -265,7 +274,7 @@ def replay(rec):
                 if i in do:
                     want = draws['D%d' % i][-1][1]
                 else:
-                    base = fassign(i, X[:, parents[i]]) if parents[i] else 0
+                    base = (X[:, parents[i][0]] if flavour == 'firstcol' else fassign(i, X[:, parents[i]])) if parents[i] else 0
                     if i in shift:
                         want = base + draws['N%d' % i][-1][1] + draws['S%d' % i][-1][1]
                     elif i in noise:
